@@ -93,4 +93,41 @@ example : ¬ Disciplined zipFrame id [.send 0 [], .mutate 0 (fun p => { p with s
   intro h
   exact h.2.1 ⟨0, []⟩ (by simp [step, Client.fresh]) rfl
 
+/-! ### the license field is the hash of the license text as it is -/
+
+/-- two frames with the same project code and payload are the same frame exactly when the two license texts have
+    the same `hash64`: the license enters the frame through `hash64` of its bytes and through nothing else — no
+    canonical form of the text (trimmed, case-folded, unquoted …) is part of the protocol. -/
+theorem frame_eq_iff_license_hash (pcode : Int) (l l' pl : Bytes) (hp : inRange 8 pcode) (hl : pl.length < 2147483648) :
+    frame pcode l pl = frame pcode l' pl ↔ hash64 l = hash64 l' := by
+  constructor
+  · intro h
+    have a := frame_parse pcode l pl [] hp hl
+    have b := frame_parse pcode l' pl [] hp hl
+    rw [h, b] at a
+    simp at a
+    exact a.symm
+  · intro h
+    simp [frame_layout, h]
+
+/-- **surrounding white space is part of the license text**: a trailing line end (LF, CR LF), a trailing or a
+    leading blank, a tab change the license field, and a text of blanks only is not the empty license (whose
+    hash is 0) — concrete witnesses, so a sender that trims the text first does not produce the reference frame. -/
+theorem license_hashed_as_is :
+    hash64 (ascii "abcdefg\n") ≠ hash64 (ascii "abcdefg") ∧ hash64 (ascii "abcdefg\r\n") ≠ hash64 (ascii "abcdefg") ∧
+    hash64 (ascii "abcdefg ") ≠ hash64 (ascii "abcdefg") ∧ hash64 (ascii " abcdefg") ≠ hash64 (ascii "abcdefg") ∧
+    hash64 (ascii "\tabcdefg") ≠ hash64 (ascii "abcdefg") ∧ hash64 (ascii "ABCDEFG") ≠ hash64 (ascii "abcdefg") ∧
+    hash64 [] = 0 ∧ hash64 (ascii " ") ≠ 0 ∧ hash64 (ascii "\n") ≠ 0 ∧ hash64 (ascii "\r\n") ≠ 0 := by
+  decide +kernel
+
+/-- … hence the frames differ (same pack, same project code): the reference frame for the license `"abcdefg\n"`
+    is not the reference frame for `"abcdefg"`, and the one for `" "` is not the one for the empty license. -/
+theorem frame_sees_surrounding_blanks (pcode : Int) (pl : Bytes) (hp : inRange 8 pcode) (hl : pl.length < 2147483648) :
+    frame pcode (ascii "abcdefg\n") pl ≠ frame pcode (ascii "abcdefg") pl ∧
+    frame pcode (ascii " ") pl ≠ frame pcode [] pl := by
+  refine ⟨fun h => license_hashed_as_is.1 ((frame_eq_iff_license_hash pcode _ _ pl hp hl).1 h), fun h => ?_⟩
+  have := (frame_eq_iff_license_hash pcode _ _ pl hp hl).1 h
+  exact license_hashed_as_is.2.2.2.2.2.2.2.1 (by rw [this]; exact license_hashed_as_is.2.2.2.2.2.2.1)
+
+example : inRange 8 (12345 : Int) ∧ ([1, 2, 3] : Bytes).length < 2147483648 := by decide
 end C05
